@@ -26,6 +26,24 @@ def _limits():
     resource.setrlimit(resource.RLIMIT_AS, (gb << 30, gb << 30))
 
 
+def _run_group(cmd, cwd, env, timeout):
+    """run cmd in its own process group; on timeout kill that group only (a system-wide `pkill cbmc` would also end
+    the solvers of checks of other properties running in parallel and turn them into UNDECIDED)"""
+    import signal
+    p = subprocess.Popen(cmd, cwd=cwd, env=env, stdout=subprocess.PIPE, stderr=subprocess.PIPE, text=True,
+                         preexec_fn=_limits, start_new_session=True)
+    try:
+        so, se = p.communicate(timeout=timeout)
+        return (so or "") + "\n" + (se or ""), False
+    except subprocess.TimeoutExpired:
+        try:
+            os.killpg(p.pid, signal.SIGKILL)
+        except ProcessLookupError:
+            pass
+        so, se = p.communicate()
+        return (so or "") + "\n" + (se or "") + "\nTIMEOUT", True
+
+
 def parse_sections(out):
     """split cargo-kani output into per-harness sections"""
     parts = re.split(r"^Checking harness ", out, flags=re.M)
@@ -105,12 +123,7 @@ def run(prop, names, tier):
                 env.pop("RUSTFLAGS", None)
                 cmds.append("CARGO_NET_OFFLINE=true " + " ".join(cmd) + f"  (cwd: scratch copy of /repo, timeout {tmo}s)")
                 t1 = time.time()
-                try:
-                    p = subprocess.run(cmd, cwd=WS, env=env, capture_output=True, text=True, timeout=tmo, preexec_fn=_limits)
-                    out = p.stdout + "\n" + p.stderr
-                except subprocess.TimeoutExpired as e:
-                    out = ((e.stdout or b"").decode(errors="replace") if isinstance(e.stdout, bytes) else (e.stdout or "")) + "\nTIMEOUT"
-                    subprocess.run(["pkill", "-9", "cbmc"], capture_output=True)
+                out, _timed_out = _run_group(cmd, WS, env, tmo)
                 secs = parse_sections(out)
                 sec = secs.get(n)
                 row = {"harness": n, "target": h.get("target"), "complete": h.get("complete", False), "bounds": h.get("bounds"),
@@ -144,8 +157,7 @@ def playback(pkg, n, h, env):
     cmd = ["cargo", "kani", "-p", pkg, "-Z", "function-contracts", "-Z", "stubbing", "-Z", "concrete-playback",
            "--concrete-playback=print"] + h.get("args", []) + ["--harness", n]
     try:
-        p = subprocess.run(cmd, cwd=WS, env=env, capture_output=True, text=True, timeout=h.get("timeout", 900), preexec_fn=_limits)
-        out = p.stdout
+        out, _ = _run_group(cmd, WS, env, h.get("timeout", 900))
         m = re.search(r"Concrete playback unit test for `[^`]+`:\n```\n(.*?)```", out, flags=re.S)
         if m:
             return m.group(1)
